@@ -25,6 +25,9 @@ Plan gen_c36(sk::Rng& r, Tier) {
     p.knobs["control_clients"] = r.range(1, 2);
     p.knobs["steps"] = r.range(3, 8);
     p.knobs["mix"] = static_cast<std::int64_t>(r.below(1u << 30));
+    // shutdown racing the traffic: 0 = after the storm, 1 = SIGTERM in the middle of it, 2 = control STOP in the middle of it
+    p.knobs["stop_mode"] = r.pick<std::int64_t>({0, 0, 0, 1, 2});
+    p.knobs["stop_after_ms"] = r.pick<std::int64_t>({300, 1200, 2500, 4000});
     Op op; op.k = "storm"; p.ops.push_back(op);
     return p;
 }
@@ -132,6 +135,16 @@ void exec_c36(const Plan& p, Ctx& ctx) {
             ++finished;
         }));
     }
+    // shutdown in the middle of the storm: the daemon's stop paths (serve loop exit, ControlServer::stop, SessionManager::stop,
+    // Node destruction) run against reader threads and requests that are still in progress
+    if (const auto mode = p.knob("stop_mode", 0); mode != 0) {
+        sk::sleep_ns(p.knob("stop_after_ms", 1200) * kMs);
+        ctx.boundary(mode == 1 ? "sigterm_during_traffic" : "control_stop_during_traffic");
+        if (mode == 1) sk::deliver_signal(d.pid, SIGTERM);
+        else setup.call([&] { (void)ctl_exchange(host, d.control_port, ctl_headers({{"COMMAND", "STOP"}}), {}, false, 5000); });
+        sk::wait_exit(d.pid, 120 * kSec);
+        if (sk::alive(d.pid)) ctx.violate("C36.daemon_did_not_stop", "the daemon did not finish within 120 simulated seconds of a stop request issued during traffic");
+    }
     // let the storm run, then wait for everyone
     for (std::size_t i = 0; i < actors.size(); ++i) actors[i]->wait(tickets[i], 600 * kSec);
     ctx.ops_done = finished;
@@ -152,7 +165,7 @@ Scenario make_c36() {
     s.stub_components = {"OS seams; pthread mutexes are modelled and annotated with __tsan_acquire/__tsan_release; thread create/join annotated", "clients and peers are scripted (uninstrumented)"};
     s.assumptions = {"accesses inside libstdc++.so and the uninstrumented harness are invisible to TSan: races there are missed, never mis-reported",
                      "reports whose location is thread-local storage are ignored: fibers share one OS thread's TLS, which real threads would not"};
-    s.rule = "plan = network/scheduler knobs, key rotation interval, 1..3 transport peers, 1..2 control clients, 3..8 actions each, action mix seed; non-trivial = every run (concurrent control + transport + tick); distinct = plan hash";
+    s.rule = "plan = network/scheduler knobs, key rotation interval, 1..3 transport peers, 1..2 control clients, 3..8 actions each, action mix seed, shutdown after or in the middle of the traffic (SIGTERM or control STOP); non-trivial = every run (concurrent control + transport + tick); distinct = plan hash";
     s.gen = gen_c36; s.exec = exec_c36; s.kernel_knobs = w4_knobs;
     s.quick_runs = 1200; s.thorough_runs = 30000; s.quick_secs = 55; s.thorough_secs = 1200;
     return s;
